@@ -286,11 +286,10 @@ def make_sheets(env, job):
 
 
 def copy_digest(document, zoom, write_options):
-    """PDF of every other page through Document.copy.  Written without the variant: with pdf/ua-1 the bytes of a
-    copy depend on whether the whole document was written before (known finding stale-link-annotation)."""
-    options = {k: v for k, v in write_options.items() if k != 'pdf_variant'}
+    """PDF of every other page through Document.copy, with the variant of the job: also as pdf/ua-1 the bytes of a
+    copy must not depend on whether the whole document was written before (stale-link-annotation, repaired)."""
     subset = document.copy(document.pages[::2])
-    return hashlib.md5(subset.write_pdf(zoom=zoom, pdf_identifier=IDENTIFIER, **options)).hexdigest()
+    return hashlib.md5(subset.write_pdf(zoom=zoom, pdf_identifier=IDENTIFIER, **write_options)).hexdigest()
 
 
 def run_job(job, env=None, html=None, sheets=None, cache=None, counter_style=None, write_twice=False,
